@@ -359,66 +359,8 @@ func runC09(c *eng.Ctx) {
 		})
 	}
 
-	// ---- 8/9. prepare-flush guard and flush commit order, four stores -----------------------------------------------
-	stores := []struct{ t, prep, flush, mu string }{
-		{kvsT, "PrepareFlush", "Flush", kvsMu},
-		{mssT, "PrepareFlush", "Flush", mssMu},
-		{"index.invertedIndex", "prepareFlush", "flush", "index.invertedIndex.lock"},
-		{"index.forwardIndex", "prepareFlush", "flush", "index.forwardIndex.lock"},
-	}
-	for _, s := range stores {
-		s := s
-		c.Rule("GUARD", s.t+"."+s.prep, func() {
-			f := c.Fn(s.t + "." + s.prep)
-			ls := p.Locks(f, nil)
-			facts := p.MustFacts(f)
-			im := c.One(f, eng.StoreField(s.t+".immutable"), "immutable = mutable")
-			mu := c.One(f, eng.StoreField(s.t+".mutable"), "mutable = new")
-			empty := facts.Find(facts.At(im.Instr), "eq", eng.DescSuffix(".immutable"), eng.DescIs("nil"))
-			c.Check(len(empty) > 0, "swap-only-when-immutable-empty", im.Instr, f, "the swap happens only when no unflushed immutable store exists (it would be overwritten and lost)", "facts: "+strings.Join(facts.Render(facts.At(im.Instr)), " ; "))
-			v, _ := storedValue(im.Instr)
-			c.Check(strings.HasSuffix(p.Desc(v), ".mutable"), "immutable-gets-mutable", im.Instr, f, "the immutable store becomes the previous mutable store", "stores "+p.Desc(v))
-			okh, why := ls.SameHold(im.Instr, mu.Instr, s.mu, true)
-			c.Check(okh && eng.DominatedBy(f, mu.Instr, []eng.Site{im}, nil), "swap-atomic", mu.Instr, f, "both halves of the swap are in one write hold, immutable first", why)
-			for _, e := range empty {
-				if in, ok := e.X.(ssa.Instruction); ok {
-					ok2, why2 := ls.SameHold(in, im.Instr, s.mu, true)
-					c.Check(ok2, "check-and-swap-one-hold", in, f, "the emptiness check and the swap are in one write hold", why2)
-				}
-			}
-		})
-		c.Rule("ORDER", s.t+"."+s.flush+"{commit<clear}", func() {
-			f := c.Fn(s.t + "." + s.flush)
-			ls := p.Locks(f, nil)
-			cl := c.Some(f, invokeOn("", "Close"), "flusher.Close()")
-			// the kv flusher commit is the Close() whose error is checked; pick closes on values named flusher
-			var commit []eng.Site
-			for _, x := range cl {
-				if strings.Contains(p.Desc(eng.CallRecv(x.Instr.(*ssa.Call))), "Flusher") || strings.Contains(p.Desc(eng.CallRecv(x.Instr.(*ssa.Call))), "flusher") {
-					commit = append(commit, x)
-				}
-			}
-			if len(commit) != 1 {
-				c.Undecided("expected one flusher.Close() in %s, found %d", p.FuncKey(f), len(commit))
-			}
-			clr := c.Some(f, eng.StoreField(s.t+".immutable"), "immutable = nil")
-			for i, x := range clr {
-				ok, why := eng.OkDominates(f, commit[0].Instr, x.Instr)
-				c.Check(ok, fmt.Sprintf("clear-only-after-commit[%d]", i), x.Instr, f, "the immutable store is dropped only after the flusher committed successfully (a failed flush keeps it for retry and for readers)", why)
-				c.Check(ls.At(x.Instr).HasField(s.mu, true), fmt.Sprintf("clear-locked[%d]", i), x.Instr, f, "the immutable store is dropped under the write lock", "held: "+ls.At(x.Instr).String())
-			}
-			// what is flushed is the immutable store
-			walk := c.Some(f, invokeOnGeneric(".immutable", "WalkEntry"), "immutable.WalkEntry")
-			c.Check(eng.DominatedBy(f, commit[0].Instr, walk, nil), "flushes-immutable", walk[0].Instr, f, "the flusher is fed from the immutable store", "")
-			if s.t == kvsT {
-				snap := c.One(f, eng.StoreField(kvsT+".snapshot"), "s.snapshot = new snapshot")
-				okh, why := ls.SameHold(snap.Instr, clr[0].Instr, kvsMu, true)
-				c.Check(okh, "new-snapshot-with-clear", snap.Instr, f, "the new snapshot is installed in the same write hold that drops the immutable store (no moment where an entry is in neither)", why)
-				okd, why2 := eng.OkDominates(f, commit[0].Instr, snap.Instr)
-				c.Check(okd, "new-snapshot-after-commit", snap.Instr, f, "the snapshot is renewed only after the commit", why2)
-			}
-		})
-	}
+	// ---- 8/9. prepare-flush guard and flush commit order, four stores (shared with C10) ----------------------------
+	flushLifecycleRules(c)
 
 	// ---- 10. series id provenance -----------------------------------------------------------------------------------
 	c.Rule("PROV", midT+".createSeriesID", func() {
@@ -625,4 +567,71 @@ func invokeOnGeneric(recvSuffix string, methods ...string) eng.Matcher {
 		r := eng.CallRecv(c)
 		return r != nil && strings.HasSuffix(p.Desc(r), recvSuffix)
 	}
+}
+
+// flushLifecycleRules (C09 + C10): for each of the four memory/kv index stores, PrepareFlush swaps only when no unflushed
+// immutable store exists (it would be overwritten: entries lost from dictionary and postings alike), and Flush drops the
+// immutable store only after the kv commit succeeded.
+func flushLifecycleRules(c *eng.Ctx) {
+	p := c.P
+	stores := []struct{ t, prep, flush, mu string }{
+		{kvsT, "PrepareFlush", "Flush", kvsMu},
+		{mssT, "PrepareFlush", "Flush", mssMu},
+		{"index.invertedIndex", "prepareFlush", "flush", "index.invertedIndex.lock"},
+		{"index.forwardIndex", "prepareFlush", "flush", "index.forwardIndex.lock"},
+	}
+	for _, s := range stores {
+		s := s
+		c.Rule("GUARD", s.t+"."+s.prep, func() {
+			f := c.Fn(s.t + "." + s.prep)
+			ls := p.Locks(f, nil)
+			facts := p.MustFacts(f)
+			im := c.One(f, eng.StoreField(s.t+".immutable"), "immutable = mutable")
+			mu := c.One(f, eng.StoreField(s.t+".mutable"), "mutable = new")
+			empty := facts.Find(facts.At(im.Instr), "eq", eng.DescSuffix(".immutable"), eng.DescIs("nil"))
+			c.Check(len(empty) > 0, "swap-only-when-immutable-empty", im.Instr, f, "the swap happens only when no unflushed immutable store exists (it would be overwritten and lost)", "facts: "+strings.Join(facts.Render(facts.At(im.Instr)), " ; "))
+			v, _ := storedValue(im.Instr)
+			c.Check(strings.HasSuffix(p.Desc(v), ".mutable"), "immutable-gets-mutable", im.Instr, f, "the immutable store becomes the previous mutable store", "stores "+p.Desc(v))
+			okh, why := ls.SameHold(im.Instr, mu.Instr, s.mu, true)
+			c.Check(okh && eng.DominatedBy(f, mu.Instr, []eng.Site{im}, nil), "swap-atomic", mu.Instr, f, "both halves of the swap are in one write hold, immutable first", why)
+			for _, e := range empty {
+				if in, ok := e.X.(ssa.Instruction); ok {
+					ok2, why2 := ls.SameHold(in, im.Instr, s.mu, true)
+					c.Check(ok2, "check-and-swap-one-hold", in, f, "the emptiness check and the swap are in one write hold", why2)
+				}
+			}
+		})
+		c.Rule("ORDER", s.t+"."+s.flush+"{commit<clear}", func() {
+			f := c.Fn(s.t + "." + s.flush)
+			ls := p.Locks(f, nil)
+			cl := c.Some(f, invokeOn("", "Close"), "flusher.Close()")
+			// the kv flusher commit is the Close() whose error is checked; pick closes on values named flusher
+			var commit []eng.Site
+			for _, x := range cl {
+				if strings.Contains(p.Desc(eng.CallRecv(x.Instr.(*ssa.Call))), "Flusher") || strings.Contains(p.Desc(eng.CallRecv(x.Instr.(*ssa.Call))), "flusher") {
+					commit = append(commit, x)
+				}
+			}
+			if len(commit) != 1 {
+				c.Undecided("expected one flusher.Close() in %s, found %d", p.FuncKey(f), len(commit))
+			}
+			clr := c.Some(f, eng.StoreField(s.t+".immutable"), "immutable = nil")
+			for i, x := range clr {
+				ok, why := eng.OkDominates(f, commit[0].Instr, x.Instr)
+				c.Check(ok, fmt.Sprintf("clear-only-after-commit[%d]", i), x.Instr, f, "the immutable store is dropped only after the flusher committed successfully (a failed flush keeps it for retry and for readers)", why)
+				c.Check(ls.At(x.Instr).HasField(s.mu, true), fmt.Sprintf("clear-locked[%d]", i), x.Instr, f, "the immutable store is dropped under the write lock", "held: "+ls.At(x.Instr).String())
+			}
+			// what is flushed is the immutable store
+			walk := c.Some(f, invokeOnGeneric(".immutable", "WalkEntry"), "immutable.WalkEntry")
+			c.Check(eng.DominatedBy(f, commit[0].Instr, walk, nil), "flushes-immutable", walk[0].Instr, f, "the flusher is fed from the immutable store", "")
+			if s.t == kvsT {
+				snap := c.One(f, eng.StoreField(kvsT+".snapshot"), "s.snapshot = new snapshot")
+				okh, why := ls.SameHold(snap.Instr, clr[0].Instr, kvsMu, true)
+				c.Check(okh, "new-snapshot-with-clear", snap.Instr, f, "the new snapshot is installed in the same write hold that drops the immutable store (no moment where an entry is in neither)", why)
+				okd, why2 := eng.OkDominates(f, commit[0].Instr, snap.Instr)
+				c.Check(okd, "new-snapshot-after-commit", snap.Instr, f, "the snapshot is renewed only after the commit", why2)
+			}
+		})
+	}
+
 }
